@@ -156,6 +156,27 @@ impl MT202 {
         let sender_to_receiver_information = parser.parse_optional_field::<Field72>("72")?;
         let currency_amount = parser.parse_optional_field::<Field33B>("33B")?;
 
+        // Sequence B, when present, starts with the ordering customer (50a) and must name the
+        // beneficiary customer (59a): both are mandatory in MT202 COV
+        if ordering_customer.is_none()
+            && (ordering_institution.is_some()
+                || intermediary.is_some()
+                || account_with_institution.is_some()
+                || beneficiary_customer.is_some()
+                || remittance_information.is_some()
+                || sender_to_receiver_information.is_some()
+                || currency_amount.is_some())
+        {
+            return Err(crate::errors::ParseError::InvalidFormat {
+                message: "MT202: Sequence B requires field 50a (ordering customer)".to_string(),
+            });
+        }
+        if ordering_customer.is_some() && beneficiary_customer.is_none() {
+            return Err(crate::errors::ParseError::InvalidFormat {
+                message: "MT202: Sequence B requires field 59a (beneficiary customer)".to_string(),
+            });
+        }
+
         // Build Sequence B only if any COV fields are present
         let sequence_b = if ordering_customer.is_some()
             || ordering_institution.is_some()
